@@ -785,6 +785,9 @@ class FnRun(FnAnalysis):
             tc = rv["ty"]
             if v and v[0] == "int" and tc in INT_BOUNDS:
                 lo, hi = INT_BOUNDS[tc]
+                if getattr(self, "collect", False):
+                    vv = self.refresh(st, v)
+                    self.int_casts[tag] = (tc, vv[2], vv[3], vv[2] >= lo and vv[3] <= hi)
                 if v[2] >= lo and v[3] <= hi:
                     return v
                 return ("int", None, lo, hi, v[4], frozenset())
@@ -1450,6 +1453,7 @@ class FnRun(FnAnalysis):
         # final pass: collect sites with the fixpoint states
         self.collect = True
         self.sites = {}
+        self.int_casts = {}
         self.ret_range = None
         for bi in sorted(entry):
             st = entry[bi].copy()
